@@ -354,19 +354,20 @@ static SimThread *choose_next(bool allow_self) {
         }
         int dflt = (allow_self && me) ? me->id : cand[0];
         int pick = dflt;
-        if (nc > 1) {
+        if (nc > 1 && (G.tail || G.strat == 4)) {
+            // fair tail (and the round-robin strategy): the candidate that ran least recently. A pure function of the
+            // state: it consumes no choice, so search and replay behave identically and liveness budgets are meaningful.
+            uint64_t best = UINT64_MAX;
+            for (int k = 0; k < nc; k++) {
+                uint64_t l = G.th[cand[k]].last_run_step;
+                if (me && cand[k] == me->id) l = G.steps; // the current thread ran just now
+                if (l < best) { best = l; pick = cand[k]; }
+            }
+        } else if (nc > 1) {
             uint32_t drawn = 0;
             if (!G.replay) {
                 int want = dflt;
-                if (G.tail || G.strat == 4) {
-                    // round robin: the candidate that ran least recently
-                    uint64_t best = UINT64_MAX;
-                    for (int k = 0; k < nc; k++) {
-                        uint64_t l = G.th[cand[k]].last_run_step;
-                        if (me && cand[k] == me->id) l = G.steps; // current ran just now
-                        if (l < best) { best = l; want = cand[k]; }
-                    }
-                } else if (G.strat == 0) {
+                if (G.strat == 0) {
                     want = cand[G.rng.below(nc)];
                 } else if (G.strat == 1) {
                     if (!(allow_self && me) || G.rng.chance(G.p_switch)) want = cand[G.rng.below(nc)];
@@ -407,6 +408,12 @@ static void check_budget() {
     if (!G.tail && G.soft_budget && G.steps > G.soft_budget) {
         G.tail = true;
         G.stats.probes["tail_mode"]++;
+    }
+    if (G.tail && (G.steps & 1023) == 0 && G.cpu_cost < 10000000000ull) {
+        // In the fair tail every step costs more and more virtual time, so that a thread that legitimately polls
+        // (e.g. the thread scheduler with a task time that does not fit a positive int64 delay) cannot keep
+        // sleepers and timed waits from ever expiring. CPU speed is not something any property depends on.
+        G.cpu_cost *= 2;
     }
     if (G.hard_budget && G.steps > G.hard_budget) {
         std::string st = describe_state();
